@@ -2292,7 +2292,10 @@ class Struct(Construct):
         return context
 
     def _sizeof(self, context, path):
-        context = Container(_ = context, _params = context._params, _root = None, _parsing = context._parsing, _building = context._building, _sizing = context._sizing, _subcons = self._subcons, _io = None, _index = context.get("_index", None))
+        context = Container(_ = context, _params = context._params, _root = None, _parsing = context._parsing, _building = context._building, _sizing = context._sizing, _subcons = self._subcons, _io = None)
+        if "_index" in context._:
+            # only inside a repetition that is being parsed or built (lazy measuring): a size depending on it is otherwise unknown
+            context._index = context._._index
         context._root = context._.get("_root", context)
         try:
             return sum(sc._sizeof(context, path) for sc in self.subcons)
@@ -2447,7 +2450,10 @@ class Sequence(Construct):
         return retlist
 
     def _sizeof(self, context, path):
-        context = Container(_ = context, _params = context._params, _root = None, _parsing = context._parsing, _building = context._building, _sizing = context._sizing, _subcons = self._subcons, _io = None, _index = context.get("_index", None))
+        context = Container(_ = context, _params = context._params, _root = None, _parsing = context._parsing, _building = context._building, _sizing = context._sizing, _subcons = self._subcons, _io = None)
+        if "_index" in context._:
+            # only inside a repetition that is being parsed or built (lazy measuring): a size depending on it is otherwise unknown
+            context._index = context._._index
         context._root = context._.get("_root", context)
         try:
             return sum(sc._sizeof(context, path) for sc in self.subcons)
@@ -3289,7 +3295,10 @@ class FocusedSeq(Construct):
         return finalret
 
     def _sizeof(self, context, path):
-        context = Container(_ = context, _params = context._params, _root = None, _parsing = context._parsing, _building = context._building, _sizing = context._sizing, _subcons = self._subcons, _io = None, _index = context.get("_index", None))
+        context = Container(_ = context, _params = context._params, _root = None, _parsing = context._parsing, _building = context._building, _sizing = context._sizing, _subcons = self._subcons, _io = None)
+        if "_index" in context._:
+            # only inside a repetition that is being parsed or built (lazy measuring): a size depending on it is otherwise unknown
+            context._index = context._._index
         context._root = context._.get("_root", context)
         try:
             return sum(sc._sizeof(context, path) for sc in self.subcons)
@@ -6117,7 +6126,10 @@ class LazyStruct(Construct):
 
     def _sizeof(self, context, path):
         # exact copy from Struct class
-        context = Container(_ = context, _params = context._params, _root = None, _parsing = context._parsing, _building = context._building, _sizing = context._sizing, _subcons = self._subcons, _io = None, _index = context.get("_index", None))
+        context = Container(_ = context, _params = context._params, _root = None, _parsing = context._parsing, _building = context._building, _sizing = context._sizing, _subcons = self._subcons, _io = None)
+        if "_index" in context._:
+            # only inside a repetition that is being parsed or built (lazy measuring): a size depending on it is otherwise unknown
+            context._index = context._._index
         context._root = context._.get("_root", context)
         try:
             return sum(sc._sizeof(context, path) for sc in self.subcons)
